@@ -28,6 +28,19 @@ FORMATS = {
 }
 
 
+_RUN_SCRATCH = None
+
+
+def _scratch():
+    """Per-process scratch directory below the directory of the invocation (removed as a whole when the check ends)."""
+    global _RUN_SCRATCH
+    if _RUN_SCRATCH is None or not os.path.isdir(_RUN_SCRATCH):
+        _RUN_SCRATCH = env.scratch_dir('c11-%d' % os.getpid())
+    d = os.path.join(_RUN_SCRATCH, 'w%d' % os.getpid())
+    os.makedirs(d, exist_ok=True)
+    return d
+
+
 class Violation(Exception):
     def __init__(self, cls, detail=''):
         super().__init__(f'{cls}: {detail}')
@@ -389,7 +402,7 @@ def open_reader(fmt, simfile, rp):
     if rp.get('via') == 'pathlib':
         # a real file handed over as pathlib.Path (the readers open it through Path.open; no raw-level faults here)
         from pathlib import Path
-        d = env.scratch_dir('c11-%d' % os.getpid())
+        d = _scratch()
         path = os.path.join(d, 'pathlib.' + ('mrv' if fmt == 'mrv' else 'sdf' if fmt in ('sdf', 'esdf') else 'rdf'))
         with open(path, 'wb') as f:
             f.write(bytes(simfile.data))
@@ -855,7 +868,7 @@ def _tear_class(ref, extents, cut, fmt):
 def _indexed_phase(fmt, data, expected, rp, probes, scratch):
     import chython.files.mdl.read as MR
     if scratch is None:
-        scratch = env.scratch_dir('c11-%d' % os.getpid())
+        scratch = _scratch()
     d = os.path.join(scratch, 'ix')
     shutil.rmtree(d, ignore_errors=True)
     os.makedirs(d)
@@ -1132,7 +1145,7 @@ def run_one(i, tier, base):
     probes = Counter()
     trace = generate(seed)
     out = {'runs': 1, 'sigs': set(), 'nontrivial': 0, 'violations': [], 'sample': None, 'sweep_cuts': 0}
-    scratch = env.scratch_dir('c11-%d' % os.getpid())
+    scratch = _scratch()
     v = execute(trace, probes, scratch)
     if v:
         out['violations'].append(dict(trace, violation=v))
@@ -1167,7 +1180,7 @@ def run_one(i, tier, base):
 def minimise(trace, budget_n=250):
     target = trace['violation']
     budget = [budget_n]
-    scratch = env.scratch_dir('c11-%d' % os.getpid())
+    scratch = _scratch()
 
     def fails(t):
         v = execute(t, None, scratch)
@@ -1266,7 +1279,7 @@ def prewarm():
 def own_files_phase(probes):
     """Valid records written by other programs are read rather than crashed on; random access = sequential."""
     found = []
-    scratch = env.scratch_dir('c11-%d' % os.getpid())
+    scratch = _scratch()
     for name in FILES:
         path = os.path.join(env.REPO, 'test', name)
         if not os.path.exists(path):
@@ -1340,7 +1353,7 @@ def replay_file(path):
     prewarm()
     if trace.get('own_file'):
         return replay_own_file(trace), trace
-    scratch = env.scratch_dir('c11-%d' % os.getpid())
+    scratch = _scratch()
     t = {k: v for k, v in trace.items() if k != 'violation'}
     return execute(t, None, scratch), trace
 
@@ -1358,11 +1371,11 @@ def main(argv):
     ap.add_argument('--no-confirm', action='store_true')
     ap.add_argument('--digest', nargs=2, type=int)
     a = ap.parse_args(argv)
-    scratch = env.scratch_dir('c11-%d' % os.getpid())
+    _scratch()
     try:
         return _main(a, subprocess)
     finally:
-        shutil.rmtree(scratch, ignore_errors=True)
+        shutil.rmtree(_RUN_SCRATCH, ignore_errors=True)
 
 
 def _main(a, subprocess):
@@ -1406,7 +1419,7 @@ def _main(a, subprocess):
             continue
         if t.get('own_file'):
             continue   # covered by own_files_phase above
-        v = execute({k: x for k, x in t.items() if k != 'violation'}, probes, env.scratch_dir('c11-%d' % os.getpid()))
+        v = execute({k: x for k, x in t.items() if k != 'violation'}, probes, _scratch())
         agg['runs'] += 1
         probes['regression_replays'] += 1
         if v:
